@@ -326,6 +326,21 @@ func (u *XUpstream) react(c *sim.Conn, r *ReqRec, up *UpRec) {
 	switch a.Kind {
 	case "reply", "", "reply_connclose": // (the HTTP/1 "Connection: close" variant is a plain reply here)
 		u.S.After(a.Delay, lab, func() { u.send(c, up, mk()); finish() })
+	case "goaway_reply":
+		// the upstream announces that it is going away (bolt go-away frame), still answers what
+		// it has received, and closes some time later
+		if n := u.Codec.Name(); n == "bolt" || n == "boltpp" { // (MOSN's boltv2 codec has no go-away frame)
+			u.S.Fault("up_goaway")
+			if !c.PeerDone() && !u.Wedged {
+				c.Send(u.Codec.Build(&XFrame{IsReq: true, GoAway: true, ID: 900000 + up.UpID%1000}))
+			}
+			u.S.After(a.Delay+a.Delay2+500*time.Millisecond, lab+":close", func() {
+				if !c.PeerDone() && u.InFlight == 0 {
+					c.PeerClose()
+				}
+			})
+		}
+		u.S.After(a.Delay, lab, func() { u.send(c, up, mk()); finish() })
 	case "never":
 		u.S.Fault("up_never")
 	case "twice":
